@@ -204,6 +204,14 @@ fn line_case(out: &mut Out, h: usize, w: usize, p0: (i64, i64), p1: (i64, i64)) 
     finish_draw(out, &req, "line", &written, &panic, margin, bounds, extra, steps > 1);
 }
 
+/// `draw_line` with width 0 draws nothing (request `line0`, model answer `- panic=0`).
+fn line0_case(out: &mut Out, h: usize, w: usize, p0: (i64, i64), p1: (i64, i64)) {
+    let req = format!("line0 {h} {w} {} {} {} {}", p0.0, p0.1, p1.0, p1.1);
+    let line = Line::from_endpoints(Point::from_yx(p0.0 as i32, p0.1 as i32), Point::from_yx(p1.0 as i32, p1.1 as i32));
+    let (written, panic, margin) = with_canvas(h, w, |v| draw_line(v, line, 1u8, 0));
+    finish_draw(out, &req, "line0", &written, &panic, margin, (0, 0, 0, 0), None, false);
+}
+
 fn fill_case(out: &mut Out, h: usize, w: usize, r: (i64, i64, i64, i64)) {
     let req = format!("fill {h} {w} {} {} {} {}", r.0, r.1, r.2, r.3);
     let rect = Rect::from_tlbr(r.0 as i32, r.1 as i32, r.2 as i32, r.3 as i32);
@@ -420,6 +428,9 @@ fn run(args: &Args) {
         let p0 = (rnd_coord(&mut rng, h), rnd_coord(&mut rng, w));
         let p1 = (rnd_coord(&mut rng, h), rnd_coord(&mut rng, w));
         line_case(&mut out, h, w, p0, p1);
+        if rng.chance(1, 20) {
+            line0_case(&mut out, h, w, p0, p1);
+        }
     }
     for _ in 0..5_000 * mult {
         let (h, w) = (rng.usize_below(11), rng.usize_below(11));
@@ -437,7 +448,7 @@ fn run(args: &Args) {
         if rng.chance(1, 2) {
             fill_case(&mut out, h, w, (t, l, b, r));
         } else {
-            let sw = *rng.pick(&[0u32, 1, 1, 1, 2, 2, 3, 5]);
+            let sw = *rng.pick(&[0u32, 1, 1, 1, 2, 2, 3, 5, 5, 1 << 31, u32::MAX, (1 << 31) + 2]);
             stroke_case(&mut out, h, w, (t, l, b, r), sw);
         }
     }
